@@ -258,9 +258,10 @@ class LockCheck(Check):
     def relevant_failure(self, r):
         """r: parsed RES dict. Returns message if r shows a violation of this property."""
         if r['mon'].startswith('FAIL'):
-            msg = r['mon'][5:]
-            if any(msg.startswith(c) for c in self.categories):
-                return msg
+            # the monitors keep the first violation of every category, joined by ' || '
+            for msg in r['mon'][5:].split(' || '):
+                if any(msg.startswith(c) for c in self.categories):
+                    return msg
         if self.stuck_relevant and r['end'] in ('stuck',):
             return f'no progress: step budget exhausted ({r["steps"]} quanta) with unfinished threads under a fair scheduler'
         if r['end'].startswith('crash') and self.crash_relevant():
@@ -785,7 +786,7 @@ class C17(ThreadCheck):
     categories = ['list']
     kinds = ('epoch',)
     long_share = 0.15
-    deep_share = 0.12
+    deep_share = 0.2
     seq_share = 0.3
 
     def crash_relevant(self):
@@ -830,11 +831,11 @@ class ZipfCheck(Check):
 
     def relevant_failure(self, r):
         if r['mon'].startswith('FAIL'):
-            msg = r['mon'][5:]
-            if any(msg.startswith(c) for c in self.categories):
-                return msg
-            if msg.startswith('crash') and 'crash' in self.categories:
-                return msg
+            for msg in r['mon'][5:].split(' || '):
+                if any(msg.startswith(c) for c in self.categories):
+                    return msg
+                if msg.startswith('crash') and 'crash' in self.categories:
+                    return msg
         return None
 
     def matches_signature(self, finding, viol):
